@@ -877,6 +877,26 @@ func (node *IndividualNode) UniqueIdentifiers() *StringSet {
 	return node.cachedUniqueIDs
 }
 
+// AddNode, DeleteNode and SetNodes change the children of the individual. The
+// unique identifiers are collected from those children, so what was remembered
+// about them is forgotten.
+func (node *IndividualNode) AddNode(n Node) {
+	node.SimpleNode.AddNode(n)
+	node.cachedUniqueIDs = nil
+}
+
+func (node *IndividualNode) DeleteNode(n Node) (didDelete bool) {
+	didDelete = node.SimpleNode.DeleteNode(n)
+	node.cachedUniqueIDs = nil
+
+	return
+}
+
+func (node *IndividualNode) SetNodes(nodes Nodes) {
+	node.SimpleNode.SetNodes(nodes)
+	node.cachedUniqueIDs = nil
+}
+
 func (node *IndividualNode) resetCache() {
 	node.cachedFamilies = false
 	node.cachedSpouses = false
